@@ -92,6 +92,12 @@ def check(run, prog, tier):
     def is_flag(tm):
         return tm[0] == "item" and is_const(tm[2]) and tm[2][1] == 0 and old_rec(tm[1])
 
+    with run.part("Q1 transition table"):
+        _transition_table(run, fi, paths, memterm, keyp, old_rec, is_id, is_flag)
+    _rest(run, prog, eng, scan_=None, mem=mem)
+
+
+def _transition_table(run, fi, paths, memterm, keyp, old_rec, is_id, is_flag):
     conds = [c for p in paths for c, _, _, _ in p.conds]
     offending = comparison_only(conds, is_id)
     consts = constants_compared(conds, is_id) | {0xFFFF}
@@ -143,6 +149,10 @@ def check(run, prog, tier):
         run.ob("Q1", f"{ASSIGN}:transition-table", True, loc(fi),
                f"{cases} abstract states over id points {[hex(x) for x in pts]}: returns current pair; next = (flag, id+1) below 0xFFFF, (False, 1) at 0xFFFF")
 
+
+
+def _rest(run, prog, eng, scan_, mem):
+    fi = prog.func(ASSIGN)
     # ------------------------------------------------------------------ Q2 single writer
     scan = Scan(prog)
     writers = 0
